@@ -660,6 +660,28 @@ def r15_6(ctx, prog, crate):
                     srcs = m.prov.local_src(idx[0]["l"])
                     ok = any(z.kind == "discr" for z in srcs) and {z.label() for z in srcs if z.kind == "param"} == {"param:" + m.param_name(2)}
         ctx.check(ok, "R15.6", ["info_mut", "index-by-kind"], "info_mut does not index by `kind as usize`", m.where(0))
+    # an input counter replaces the inherited counter of its own kind: set_input_counter empties exactly that kind's
+    # counts, unconditionally, and installs the generator in the same slot
+    si = [x for x in prog.find("CounterCollection::set_input_counter", crate) if x.kind != "Closure"]
+    if ctx.anchor("R15.6", "CounterCollection::set_input_counter", si, 1):
+        x = si[0]
+        ctx.saw(x)
+        im2 = [c for c in x.live_calls() if c.callee == "counter::collection::CounterCollection::info_mut"]
+        if ctx.check(len(im2) == 1, "R15.6", ["set_input_counter", "one-info_mut"], "info_mut sites: %d" % len(im2), x.where(0)):
+            k = x.prov.op_src(im2[0].args[1])
+            ctx.check(any(s.kind == "call" and s.a.endswith("KnownCounterKind::of") for s in k), "R15.6", ["set_input_counter", "own-kind"],
+                      "set_input_counter selects the slot by %s" % sorted(s.label() for s in k), im2[0].line())
+            clears = [c for c in x.live_calls() if c.callee == "std::vec::Vec::clear"
+                      and any(s.kind == "call" and s.b == im2[0].bb for s in x.prov.op_src(c.args[0])) and nophi(x.prov.op_src(c.args[0]))]
+            ok = len(clears) == 1 and all(x.dominates(clears[0].bb, r) for r in x.returns)
+            ctx.check(ok, "R15.6", ["set_input_counter", "clears-own-kind-unconditionally"],
+                      "set_input_counter does not unconditionally empty the counts of the selected kind (the inherited counter of that kind would survive next to the input counts)", x.where(0))
+            others = [c.callee.rsplit("::", 1)[-1] for c in x.live_calls() if "CounterCollection::" in c.callee and c.callee != im2[0].callee]
+            ctx.check(not others, "R15.6", ["set_input_counter", "touches-only-own-slot"] + others, "set_input_counter also calls %s" % others, x.where(0))
+            # count_input is stored into the same slot
+            st = [(bi, s) for bi, si_, s in x.stmts() if s["k"] == "assign" and place_fields(s["p"])[-1:] == ("count_input",)]
+            ok2 = len(st) == 1 and any(z.kind == "call" and z.b == im2[0].bb for z in x.prov.local_src(st[0][1]["p"]["l"]))
+            ctx.check(ok2, "R15.6", ["set_input_counter", "generator-in-own-slot"], "count_input is not stored into the selected slot", x.where(0))
     bc = [x for x in prog.find("Bencher::counter", crate)]
     if ctx.anchor("R15.6", "Bencher::counter", bc, 1):
         for x in bc:
